@@ -91,6 +91,9 @@ def place_expr(body, defs, pl, depth=0):
                 base = ("cast", rv[4], expr(body, defs, rv[2], depth + 1))
             elif rv[0] == "discr":
                 base = ("discr", place_expr(body, defs, rv[1], depth + 1))
+            elif rv[0] == "agg":
+                k = rv[1]
+                base = ("agg", k.get("adt", k.get("k")) + ("::" + k["variant"] if k.get("variant") else ""), tuple(expr(body, defs, o, depth + 1) for o in rv[2]))
             else:
                 base = ("local", l)
         else:
